@@ -14,7 +14,22 @@ import (
 	"time"
 )
 
-const VerifRoot = "/verif"
+// VerifRoot is the root of the verification tree (spec/, evidence/, KNOWN_FINDINGS.jsonl). The run
+// script exports VERIF_ROOT (its own directory) so that a git worktree of /verif works by itself.
+var VerifRoot = func() string {
+	if r := os.Getenv("VERIF_ROOT"); r != "" {
+		return r
+	}
+	return "/verif"
+}()
+
+// RepoRoot is the elk-language/elk tree the harness was built against (VERIF_REPO, default /repo).
+var RepoRoot = func() string {
+	if r := os.Getenv("VERIF_REPO"); r != "" {
+		return r
+	}
+	return "/repo"
+}()
 
 // Exit codes of a check.
 const (
@@ -282,25 +297,31 @@ type KnownFinding struct {
 }
 
 func LoadKnown(property string) ([]KnownFinding, error) {
-	b, err := os.ReadFile(filepath.Join(VerifRoot, "KNOWN_FINDINGS.jsonl"))
-	if os.IsNotExist(err) {
-		return nil, nil
-	}
-	if err != nil {
-		return nil, err
-	}
+	files := []string{filepath.Join(VerifRoot, "KNOWN_FINDINGS.jsonl")}
+	more, _ := filepath.Glob(filepath.Join(VerifRoot, "known", "*.jsonl"))
+	sort.Strings(more)
+	files = append(files, more...)
 	var out []KnownFinding
-	for i, line := range strings.Split(string(b), "\n") {
-		line = strings.TrimSpace(line)
-		if line == "" || strings.HasPrefix(line, "#") {
+	for _, f := range files {
+		b, err := os.ReadFile(f)
+		if os.IsNotExist(err) {
 			continue
 		}
-		var k KnownFinding
-		if err := json.Unmarshal([]byte(line), &k); err != nil {
-			return nil, fmt.Errorf("KNOWN_FINDINGS.jsonl line %d: %v", i+1, err)
+		if err != nil {
+			return nil, err
 		}
-		if k.Property == property {
-			out = append(out, k)
+		for i, line := range strings.Split(string(b), "\n") {
+			line = strings.TrimSpace(line)
+			if line == "" || strings.HasPrefix(line, "#") {
+				continue
+			}
+			var k KnownFinding
+			if err := json.Unmarshal([]byte(line), &k); err != nil {
+				return nil, fmt.Errorf("%s line %d: %v", f, i+1, err)
+			}
+			if k.Property == property {
+				out = append(out, k)
+			}
 		}
 	}
 	return out, nil
